@@ -298,6 +298,9 @@ func judgeFinal(sc scenarioSpec, finals map[string]obs, got obs) (sig, msg strin
 			ks = append(ks, k)
 		}
 		sort.Strings(ks)
+		if len(ks) == 0 {
+			return "changed-by-operations-on-other-metrics"
+		}
 		return strings.Join(ks, "+")
 	}
 	if len(bad) == 0 {
